@@ -341,6 +341,23 @@ func EntryLocks(p *Prog, pkgPath string) (map[*ssa.Function]LockSet, map[*ssa.Fu
 						break
 					}
 				}
+				// … unless the library routine only registers the literal to run later, on
+				// another goroutine (time.AfterFunc, context.AfterFunc, finalizers, handlers)
+				if cal != nil {
+					lp := ""
+					if cal.Pkg != nil {
+						lp = cal.Pkg.Pkg.Path()
+					} else if cal.Origin() != nil && cal.Origin().Pkg != nil {
+						lp = cal.Origin().Pkg.Pkg.Path()
+					}
+					switch lp {
+					case "time", "context", "runtime", "net/http", "os/signal":
+						ok = false
+					}
+					if !ok {
+						break
+					}
+				}
 				isArg := false
 				for _, a := range cl.Call.Args {
 					if a == mc {
